@@ -1,7 +1,7 @@
 (* Corr.v — comparison of model outputs with the implementation's observables,
    evaluated by vm_compute from generated case files (definitions only). *)
 From Coq Require Import ZArith List Bool Lia.
-From Dendro Require Import Base Tree Grid Criteria Compute Index Prune PruneGhost Newick IO DEq Cache Plot Moments Stats Catalog.
+From Dendro Require Import Base Tree Grid Criteria Compute Index Prune PruneGhost Newick IO DEq Cache Plot Moments Stats Catalog Flux.
 Import ListNotations.
 Open Scope Z_scope.
 
@@ -142,3 +142,16 @@ Definition pp_view (ps : list Moments.pt) :=
 (* ---- catalogs (C12): the un-wrapping of one axis: (axis length, indices, expected) *)
 Definition unwrap_case : Type := Z * list Z * list Z.
 Definition unwrap_ok (c : unwrap_case) : bool := let '(n, l, e) := c in zl_eqb (Catalog.unwrap n l) e.
+
+(* ---- flux (C13): result as (error code, (coefficient fraction, (pi power, ln2 power))) *)
+Definition err_code (e : Flux.err) : Z :=
+  match e with
+  | Flux.EWavelengthLength => 1 | Flux.EWavelengthNeeded => 2 | Flux.ESpatialAngle => 3 | Flux.ESpatialNeeded => 4
+  | Flux.EBeamMajorAngle => 5 | Flux.EBeamMajorNeeded => 6 | Flux.EBeamMinorAngle => 7 | Flux.EBeamMinorNeeded => 8
+  | Flux.EUnsupported => 9 | Flux.EOutputUnit => 10
+  end.
+Definition flux_view (r : Flux.res) : Z * ((Z * Z) * (Z * Z)) :=
+  match r with
+  | Flux.Ok v => (0, (Plot.qpair (Flux.sc v), (Flux.spi v, Flux.sln v)))
+  | Flux.Err e => (err_code e, ((0, 1), (0, 0)))
+  end.
